@@ -36,10 +36,12 @@ type File struct {
 	Budget     int         `json:"budget_ms"`
 	Random     int         `json:"random_tries"`
 	Class      string      `json:"class"`
+	Shapes     map[string]int `json:"shapes"`
 }
 
 // Gen fills values from a candidate, falling back to pseudo-random choices.
 type Gen struct {
+	shapes map[string]int
 	c     *Candidate
 	rnd   *rand.Rand
 	small int
@@ -180,6 +182,9 @@ func (g *Gen) has(path string) bool {
 }
 
 func (g *Gen) shapeLen(path string) int {
+	if sn, ok := g.shapes[path]; ok {
+		return sn
+	}
 	if g.c != nil {
 		if a, ok := g.c.Arrays[path]; ok {
 			return a.Len
@@ -203,6 +208,10 @@ func (g *Gen) array(path string, bits int) (int, func(i int) uint64) {
 		}
 	} else {
 		n = g.rnd.Intn(g.small + 1)
+	}
+	if sn, ok := g.shapes[path]; ok {
+		// fixed-shape parameter: elements are scalars named path[i]
+		return sn, func(i int) uint64 { return g.scalar(fmt.Sprintf("%s[%d]", path, i), bits) }
 	}
 	mode := g.rnd.Intn(3)
 	return n, func(i int) uint64 {
@@ -311,7 +320,7 @@ func Main(body func(g *Gen)) {
 	for i := range f.Candidates {
 		c := &f.Candidates[i]
 		for rep := 0; rep < 3; rep++ {
-			g := &Gen{c: c, rnd: rnd, small: 8, Used: map[string]string{}}
+			g := &Gen{shapes: f.Shapes, c: c, rnd: rnd, small: 8, Used: map[string]string{}}
 			o := runOnce(g, body, limit)
 			tries++
 			if o.Kind == "skip" {
@@ -329,7 +338,7 @@ func Main(body func(g *Gen)) {
 		if len(f.Candidates) > 0 && i%2 == 0 {
 			c = &f.Candidates[rnd.Intn(len(f.Candidates))]
 		}
-		g := &Gen{c: c, rnd: rnd, small: 1 + i%17, Used: map[string]string{}}
+		g := &Gen{shapes: f.Shapes, c: c, rnd: rnd, small: 1 + i%17, Used: map[string]string{}}
 		o := runOnce(g, body, limit)
 		tries++
 		if o.Kind == "skip" {
